@@ -102,6 +102,10 @@ type Scenario struct {
 	// names it accepts must execute like any other ("when waiting on a started plan returns, the stored plan is
 	// Completed or Failed").
 	NameKind int `json:",omitempty"`
+	// RecoverPermille > 0 (used by C02 only): after the run the process "crashes" at that prefix of the committed write
+	// log and a new Workstream recovers on the rebuilt store; the concurrency bound is judged on the recovery run too
+	// ("At every instant ...").
+	RecoverPermille int `json:",omitempty"`
 }
 
 // planNames[NameKind]: non-ASCII white space only, mixed Unicode blanks, ASCII blanks, non-ASCII text, padded, long.
